@@ -190,11 +190,12 @@ def handle : Handler := fun s =>
     let boxesOk := (shapes.zip boxes).all fun (sh, b) =>
       match sh, b with
       | .empty, none => true
-      | .simple cs, some b => pointsBox (cs.flatMap id) == some b
+      | .simple cs, some b => pointsBox cs.flatten == some b
       | .composite comps, some b =>
         let pts := resolvedPoints shapes fuel comps Affine.identity
         let half : Rat := 1/2
         if pts.isEmpty then b == Box.zero
+        else if pts.any (fun p => !(inI16 (otRound p.1) && inI16 (otRound p.2))) then true  -- saturates: C19
         else
           pts.all (fun p => (b.xMin : Rat) - half ≤ p.1 && p.1 < (b.xMax : Rat) + half
                          && (b.yMin : Rat) - half ≤ p.2 && p.2 < (b.yMax : Rat) + half) &&
@@ -254,12 +255,15 @@ def handle : Handler := fun s =>
       (if hms.any (fun m => match m.boundsAdvance with | some ba => (m.advance : Int) - m.sideBearing - ba < 0 | none => false) then ["neg-rsb"] else []) ++
       (if allCps.any (· ≥ 0x10000) then ["supplementary"] else []) ++
       (if vertical then ["vertical"] else []) ++ (if vNarrow then ["v-tsb-out-of-i16"] else []) ++
+      (if (shapes.any fun sh => match sh with
+          | .composite comps => (resolvedPoints shapes fuel comps Affine.identity).any fun p => !(inI16 (otRound p.1) && inI16 (otRound p.2))
+          | _ => false) then ["bbox-saturated"] else []) ++
       (if !hInRange then ["h-clamped"] else []) ++ (if !avgInRange then ["avg-out-of-i16"] else []) ++
       (if fmtNat == 1 then ["loca-long"] else []) ++
       (if avgOfF32 nz.length nz.sum != avgExact then ["avg-f32-differs"] else [])
     let detail :=
       if corr && oracle then "" else
-        s!"model: boxes={repr mBoxes} hhea={repr [(hm.advanceMax : Int), hm.minFirst, hm.minSecond, hm.maxExtent, hm.longMetrics.length]} maxp={repr mMaxp} head={repr hb} os2={repr ([mAvg, (mFirst : Int), (mLast : Int)])} ur={repr ur} cpr={repr cpr} avgExact={avgExact}"
+        s!"model: hhea={repr [(hm.advanceMax : Int), hm.minFirst, hm.minSecond, hm.maxExtent, hm.longMetrics.length]} maxp={repr mMaxp} head={repr hb} os2={repr ([mAvg, (mFirst : Int), (mLast : Int)])} ur={repr ur} cpr={repr cpr} avgExact={avgExact}"
     some { corr := some corr, oracle := some oracle, nontrivial := nt, cls := cls, tags := tags, detail := detail }
   r.getD (badInput "c17: cannot parse case")
 
